@@ -1,6 +1,8 @@
 //! C19 (b): every short input through the decode paths implemented with unsafe code (fixed-size
-//! arrays, byte vectors, reference lookup). Run natively and under Miri; the outputs must be
-//! identical and Miri must report no undefined behaviour.
+//! arrays, byte vectors, reference lookup) and through the decoders of the types that carry a
+//! validity invariant the compiler relies on (`char`: scalar values only, `bool`: 0 / 1, `String`:
+//! UTF-8), on dedicated input sets that cover every way of violating the invariant. Run natively
+//! and under Miri; the outputs must be identical and Miri must report no undefined behaviour.
 #![forbid(unsafe_code)]
 use desert::{deserialize, BinaryDeserializer, BinaryInput, DeserializationContext};
 use std::fmt::Debug;
@@ -87,6 +89,60 @@ fn refs(input: &[u8]) -> String {
     seen.join(",")
 }
 
+/// `DeduplicatedString` has no `Debug`
+#[derive(Debug)]
+struct Dd(#[allow(dead_code)] String);
+
+impl BinaryDeserializer for Dd {
+    fn deserialize(ctx: &mut DeserializationContext<'_>) -> desert::Result<Self> {
+        Ok(Dd(desert::DeduplicatedString::deserialize(ctx)?.0))
+    }
+}
+
+/// two-byte inputs: every pair over the bytes at which the classes of UTF-16 code units change
+/// (all 65 536 pairs when `all`)
+fn char_inputs(all: bool) -> Vec<Vec<u8>> {
+    let edge: Vec<u8> = if all { (0..=255u8).collect() } else { vec![0x00, 0x01, 0x61, 0x7f, 0x80, 0xd7, 0xd8, 0xdb, 0xdc, 0xdf, 0xe0, 0xfe, 0xff] };
+    let mut out = Vec::new();
+    for a in &edge {
+        for b in &edge {
+            out.push(vec![*a, *b]);
+        }
+    }
+    out
+}
+
+/// strings whose length prefix is right and whose bytes are not UTF-8 (every class of ill-formed
+/// sequence: lone continuation, truncated lead, overlong, surrogate, above U+10FFFF, bad lead)
+fn utf8_inputs() -> Vec<Vec<u8>> {
+    let bodies: [&[u8]; 14] = [
+        &[0x80],
+        &[0xbf],
+        &[0xc3],
+        &[0xc3, 0x28],
+        &[0xc0, 0xaf],
+        &[0xc1, 0xbf],
+        &[0xe0, 0x80, 0xaf],
+        &[0xe2, 0x82],
+        &[0xed, 0xa0, 0x80],
+        &[0xed, 0xbf, 0xbf],
+        &[0xf0, 0x80, 0x80, 0xaf],
+        &[0xf4, 0x90, 0x80, 0x80],
+        &[0xf8, 0x88, 0x80, 0x80, 0x80],
+        &[0xff],
+    ];
+    let mut out = Vec::new();
+    for b in bodies {
+        for (pre, post) in [(&[][..], &[][..]), (&b"a"[..], &b"b"[..])] {
+            let body: Vec<u8> = [pre, b, post].concat();
+            let mut i = vec![(body.len() as u8) << 1];
+            i.extend(body);
+            out.push(i);
+        }
+    }
+    out
+}
+
 fn main() {
     let max_len: usize = std::env::args().nth(1).and_then(|s| s.parse().ok()).unwrap_or(3);
     let inputs = strings(max_len);
@@ -103,6 +159,19 @@ fn main() {
     run::<Vec<[u8; 2]>>("Vec<[u8;2]>", &inputs, &mut sum);
     run::<bytes::Bytes>("Bytes", &inputs, &mut sum);
     run::<Option<[u8; 2]>>("Option<[u8;2]>", &inputs, &mut sum);
+    // validity invariants: a decoder must never hand out a value outside its type
+    run::<char>("char", &inputs, &mut sum);
+    run::<bool>("bool", &inputs, &mut sum);
+    run::<String>("String", &inputs, &mut sum);
+    if max_len >= 4 {
+        run::<Vec<char>>("Vec<char>", &inputs, &mut sum);
+        run::<Option<bool>>("Option<bool>", &inputs, &mut sum);
+        run::<(char, bool)>("(char,bool)", &inputs, &mut sum);
+    }
+    run::<char>("char/16-bit units", &char_inputs(max_len >= 4), &mut sum);
+    run::<bool>("bool/all bytes", &(0..=255u8).map(|b| vec![b]).collect::<Vec<_>>(), &mut sum);
+    run::<String>("String/ill-formed UTF-8", &utf8_inputs(), &mut sum);
+    run::<Dd>("DeduplicatedString/ill-formed UTF-8", &utf8_inputs(), &mut sum);
     for i in &inputs {
         let line = format!("refs|{i:02x?}|{}", refs(i));
         for b in line.bytes() {
